@@ -455,7 +455,7 @@ pub fn run_stage(env: &Env, profile: &str, stage: &Stage, budget: u64) -> StageR
     if pidfd >= 0 {
         let mut pfd = libc::pollfd { fd: pidfd, events: libc::POLLIN, revents: 0 };
         loop {
-            let r = unsafe { libc::poll(&mut pfd, 1, 10_000) };
+            let r = unsafe { libc::poll(&mut pfd, 1, 6_000) };
             if r == 0 {
                 timed_out = true;
                 let _ = child.kill();
@@ -613,7 +613,7 @@ pub fn judge_stage(stage_no: usize, stage: &Stage, res: &StageResult, expect: &E
     // ---- C01: the process ends with an exit status, no panic, no hang
     let stderr_s = String::from_utf8_lossy(&res.stderr);
     if res.timed_out {
-        v.push(viol("C01", "cli-hang", stage_no, op.clone(), "terminates".into(), "no exit within the 10 s backstop".into(), needs));
+        v.push(viol("C01", "cli-hang", stage_no, op.clone(), "terminates".into(), "no exit within the 6 s backstop".into(), needs));
     } else if res.code == Some(97) {
         v.push(viol("C01", "cli-hang", stage_no, op.clone(), format!("at most {} intercepted system calls", budget), format!("step budget exceeded; trace tail: {}", tail(&res.trace_raw)), needs));
     } else if res.code == Some(98) {
@@ -1198,6 +1198,10 @@ pub fn main(a: &Args) -> i32 {
 
     let mut i = first + worker;
     while runs < max_runs && (started.elapsed().as_secs_f64() < seconds || runs == 0) && violations.len() < max_violations {
+        // a hang costs seconds per occurrence: one is enough to report
+        if violations.iter().any(|v| v.get("class").and_then(|c| c.as_str()) == Some("cli-hang")) {
+            break;
+        }
         let case_seed = prng::mix(seed, &[crate::tier_id(&tier), 2, i]);
         let mut prof_rng = Rng::new(prng::mix(case_seed, &[0x9f0f]));
         let profile = profiles[prof_rng.below(profiles.len())].clone();
